@@ -20,6 +20,8 @@ def family(name):
         return tuple(_wide(parts[1]))
     if parts[0] == 'd3':
         return tuple(_d3(parts[1], parts[2]))
+    if parts[0] == 'mix3':
+        return tuple(_mix3(parts[1], parts[2]))
     if parts[0] in ('conn1', 'conn2', 'closure', 'conn2s', 'conn1s'):
         return tuple(_conn(parts))
     leaf_ids = _leafids(parts[0])
@@ -134,3 +136,17 @@ def _conn(parts):
             base.append(spaces.C('Imply', None, [z, X]))
             base.append(spaces.C('XNor', None, [X, z]))
     return [spaces.name_ids(f, policy) for f in base]
+
+
+def _mix3(leaves, policy):
+    """Three-children tops: one depth-1 compound over the first two leaves plus TWO atoms (every pair of the leaf set, so boolean
+    and integer atoms with negative lower bounds are mixed under one parent); all signs / relevant thresholds."""
+    leaf_ids = _leafids(leaves)
+    d1 = spaces.depth1_nodes(leaf_ids[:2], 2)
+    lv = [spaces.leaf(i) for i in leaf_ids]
+    for X in d1:
+        for l1, l2 in itertools.combinations(lv, 2):
+            ch = [X, l1, l2]
+            for s in (1, -1):
+                for v in spaces.thresholds(ch, s, clip=6):
+                    yield spaces.assign_ids(N(None, s, v, ch), policy)
